@@ -264,9 +264,12 @@ def _r5(ctx) -> None:
 
     check_wait_freshness(ctx, "C04.R7")
     check_node_options_used(ctx, "C04.R6")
-    from .c03 import check_any_gate_activates
+    from .c03 import check_any_gate_activates, check_controlled_by_from_targets
 
     check_any_gate_activates(ctx, "C04.R4")
+    # 'is this node gated?' (activation, and the self-producer exemption of the staleness test) is answered from the
+    # gates' declared targets — not from control edges, which exist only where no other edge joins the pair
+    check_controlled_by_from_targets(ctx, "C04.R4")
 
 
 def _deletes_decisions(n) -> bool:
